@@ -43,6 +43,7 @@ Rules1 == [m : {"", "GET", "POST"}, neg : BOOLEAN, l : BOOLEAN, r : BOOLEAN, pat
 R(m, neg, l, r, pat, legacy) == [m |-> m, neg |-> neg, l |-> l, r |-> r, pat |-> pat, legacy |-> legacy]
 PairBase == { R("GET", FALSE, TRUE, TRUE, <<"sl","a">>, FALSE),
               R("", TRUE, TRUE, FALSE, <<"sl","b">>, FALSE),
+              R("GET", TRUE, TRUE, FALSE, <<"sl","a">>, FALSE),       \* a second negated rule: each rule exempts on its own, they are not one exclusion list
               R("", FALSE, FALSE, FALSE, <<"sl","a","sl","b">>, FALSE),
               R("POST", FALSE, TRUE, FALSE, <<"sl","a">>, FALSE),
               R("", FALSE, TRUE, TRUE, <<"sl","b">>, TRUE) }
